@@ -144,7 +144,11 @@ func (p *parser) parseUnaryExpr() Node {
 	if unaryExp.Right == nil {
 		return nil // previous error
 	}
+	errCount := len(p.errors)
 	p.validateUnaryType(unaryExp)
+	if len(p.errors) > errCount {
+		return nil // ill-typed: do not hand the node on to type conversion
+	}
 	return unaryExp
 }
 
